@@ -97,6 +97,35 @@ def strip_casts(v):
     return v
 
 
+INT_BITS = {"u8": 8, "i8": 8, "u16": 16, "i16": 16, "u32": 32, "i32": 32, "u64": 64, "i64": 64, "usize": 64, "isize": 64,
+            "u128": 128, "i128": 128, "bool": 1, "char": 32}
+
+
+def narrowing_cast(v, rp):
+    """Description of the first value-losing cast between the value read and v, or None."""
+    chain = []
+    x = v
+    while isinstance(x, tuple) and x and x[0] in ("cast", "tryok", "unwrapped"):
+        if x[0] == "cast":
+            chain.append(x[2])
+        x = x[1]
+    if not (isinstance(x, tuple) and x and x[0] == "atom"):
+        return None
+    cur = None
+    for a in rp.atoms:
+        if a.atom == x[1] and a.k == "F":
+            cur = a.ty
+    if cur is None or cur[0] != "prim":
+        return None
+    for t in reversed(chain):
+        if t[0] != "prim" or t[1] not in INT_BITS or cur[1] not in INT_BITS:
+            return None
+        if INT_BITS[t[1]] < INT_BITS[cur[1]]:
+            return "%s narrowed to %s" % (cur[1], t[1])
+        cur = t
+    return None
+
+
 def selectors_compatible(wp, rp):
     # reader tag selectors against writer constants at the same position
     for s in rp.selectors:
@@ -446,6 +475,11 @@ def check_w3(t, ser_ok, rd, mode, rep):
             continue
         eqs = [s for s in r.selectors if s[0] == "eq"]
         els = [s for s in r.selectors if s[0] == "else"]
+        for s_ in eqs + els:
+            nc = narrowing_cast(s_[1], r)
+            rep.oblige(nc is None)
+            if nc is not None:
+                rep.add("W3-narrow", "%s:%s" % (t.key, mode), "`%s` (%s): the tag is matched after a lossy cast (%s): foreign tags that agree on the low bits are mapped to a variant" % (t.key, mode, nc), t.loc)
         if eqs:
             s = eqs[0]
             c = const_of(s[2])
@@ -475,9 +509,12 @@ def check_w3(t, ser_ok, rd, mode, rep):
                 if isinstance(ev, tuple) and ev and ev[0] == "adt" and ev[1] == ERR:
                     vname = variant_name(t, ERR, ev[2])
                     if vname == "InvalidTag":
-                        payload = strip_casts(dict(ev[3]).get(0))
-                        if payload == av:
+                        praw = dict(ev[3]).get(0)
+                        payload = strip_casts(praw)
+                        if payload == av and narrowing_cast(praw, r) is None:
                             ok = True
+                        elif payload == av:
+                            why = "InvalidTag carries a truncated copy of the tag (%s)" % narrowing_cast(praw, r)
                         else:
                             why = "InvalidTag carries %s instead of the tag that was read (%s)" % (vs(payload), vs(av))
                     else:
